@@ -520,6 +520,16 @@ M("r13-walk-from-unpruned-root", ["C13", "C04"], "break",
   "find_minimal_translation/walk-from-pruned-root")
 M("r16-back-cost-counts-error-sets", ["C06", "C12"], "break",
   [("yaep.c", "    else if (pl[curr_pl]->core->term != grammar->term_error)\n      (*cost)++;", "    else\n      (*cost)++;")], "find_error_pl_set/error-sets-not-counted")
+M("r16-back-cost-closed-form", ["C06", "C12"], "break",
+  [("yaep.c", "    else if (pl[curr_pl]->core->term != grammar->term_error)\n      (*cost)++;\n  assert (curr_pl >= 0);", "    else\n      ;\n  assert (curr_pl >= 0);\n  *cost = start_pl_set - curr_pl;")], "find_error_pl_set/error-sets-not-counted")
+M("r16-back-cost-local-counter-benign", ["C06", "C12"], "benign",
+  [("yaep.c", "    else if (pl[curr_pl]->core->term != grammar->term_error)\n      (*cost)++;", "    else\n      *cost += (pl[curr_pl]->core->term != grammar->term_error);")])
+M("c03-parent-disp-crossed", ["C02", "C03"], "break",
+  [("yaep.c", "		  state->parent_disp = anode == NULL ? parent_disp : disp;", "		  state->parent_disp = disp;")], "make_parse/state-pushed")
+M("c03-parent-disp-crossed-if-form", ["C02", "C03"], "break",
+  [("yaep.c", "			  state->parent_anode_state = curr_state;\n			  state->parent_disp = disp;", "			  state->parent_anode_state = curr_state;\n			  state->parent_disp = parent_disp;")], "make_parse/state-pushed")
+M("c03-parent-disp-flipped-condition-benign", ["C02", "C03"], "benign",
+  [("yaep.c", "		  state->parent_disp = anode == NULL ? parent_disp : disp;", "		  state->parent_disp = anode != NULL ? disp : parent_disp;")])
 M("r12-term-set-number-from-table-count", ["C17", "C14"], "break",
   [("yaep.c", "      tab_term_set_ptr->num = (VLO_LENGTH (term_sets_ptr->tab_term_set_vlo)\n			       / sizeof (struct tab_term_set *));", "      tab_term_set_ptr->num = hash_table_elements_number (term_sets_ptr->term_set_tab) - 1;")],
   "term_set_insert/number-is-vector-index")
